@@ -16,10 +16,24 @@ for u in units:
     except gen.GenError as e:
         print(u, "GEN ERROR", e)
         continue
+    for q in unit.assume_pins:
+        if q["pin"]:
+            globals().setdefault("assume", {})[q["key"]] = q["pin"]
     for p in unit.pins:
         f, n = unit.tmap[p["tline"] - 1]
         todo.setdefault(f, {})[n] = p["pin"]
     print(u, len(unit.pins), "wildcard edits")
+# ASSUME pins (bodies of /repo functions whose contract is assumed)
+import json
+ap_path = os.path.join(C, "assume_pins.json")
+try:
+    ap = json.load(open(ap_path))
+except (OSError, ValueError):
+    ap = {}
+for k, v in list(globals().get("assume", {}).items()):
+    ap[k] = v
+json.dump(dict(sorted(ap.items())), open(ap_path, "w"), indent=1)
+print("assume pins:", len(ap))
 for f, d in todo.items():
     path = os.path.join(C, f)
     lines = open(path).read().split("\n")
